@@ -116,6 +116,7 @@ func runServe(cases []J, ow *obsWriter) {
 			srv.kill()
 		}
 	}()
+	noReply := 0
 	for seq, c := range cases {
 		restarted := false
 		if srv == nil {
@@ -194,10 +195,16 @@ func runServe(cases []J, ow *obsWriter) {
 		obs["alive"] = alive
 		obs["fnStatus"] = fst
 		obs["fnMethods"] = methods
-		if !alive {
+		if !alive || err != nil { // a request without an answer leaves a handler hanging: the next one gets a fresh process
 			srv.kill()
 			srv = nil
 		}
 		ow.emit(obs)
+		if err != nil {
+			noReply++
+			if noReply >= 4 { // a service that stopped answering is not asked three hundred more times
+				break
+			}
+		}
 	}
 }
